@@ -173,11 +173,6 @@ def _compare_loaded(orig, arr, meta_before, cs_before, want_attrs, loaded, what,
     d = C._meta_diff(C._norm_meta(loaded.metadata()), meta_before)
     if d:
         raise Violation("npz-metadata", f"{what}: metadata {d}", t)
-    # value *types* that matter when the metadata is used again
-    for k in ("date", "time"):
-        a, b = loaded.metadata()[k], orig.metadata()[k]
-        if isinstance(a, list) != isinstance(b, list):
-            raise Violation("npz-metadata-type", f"{what}: {k} is {type(a).__name__}, was {type(b).__name__}", t)
     for attr in ("series", "scalar", "space_dim", "time_num", "name"):
         if getattr(loaded, attr) != getattr(orig, attr):
             raise Violation("npz-attribute", f"{what}: {attr} {getattr(orig, attr)!r} -> "
